@@ -1477,8 +1477,8 @@ macro_rules! lx_datalines_direct_harness {
                 kani::cover!(is_dl && found_any(&t, j), "terminated block");
                 kani::cover!(is_dl && prev == 0);
                 kani::cover!($k < 8 || (is_dl && pi == t.n && t.ch[t.n - 1] == ';' && t.n >= j + 3), "data then terminator");
-                kani::cover!($k < 2 || (is_dl && pi == t.n && t.ch[t.n - 1] != ';'), "unterminated block");
-                kani::cover!(!is_dl && prev == 1);
+                kani::cover!($k < 2 || t.ch[0] == '\u{b}' || (is_dl && pi == t.n && t.ch[t.n - 1] != ';'), "unterminated block");
+                kani::cover!(t.ch[0] == ';' || (!is_dl && prev == 1));
                 std::mem::forget(lx);
             }
         }
@@ -1828,7 +1828,7 @@ lx_harness! {
 
 // Datalines with the keyword inside the constant prefix: only the followers are symbolic, so the unwind
 // bound (and with it every scanning loop of lex_datalines) stays small.
-pub(crate) fn setup_after_cards<'a, const K: usize, const B: usize>(t: &'a Txt<K, B>) -> Lexer<'a> {
+pub(crate) fn setup_after_cards<'a, const K: usize, const B: usize>(t: &'a Txt<K, B>, four: bool) -> Lexer<'a> {
     let src = t.as_str();
     shadow::reset(src.len());
     shadow::set_source(src);
@@ -1863,16 +1863,25 @@ pub(crate) fn setup_after_cards<'a, const K: usize, const B: usize>(t: &'a Txt<K
     lx.cursor.advance();
     lx.cursor.advance();
     lx.cursor.advance();
+    if four {
+        lx.cursor.advance();
+    }
     lx
 }
 
 macro_rules! lx_datalines_pfx_harness {
     ($k:literal, $b:literal, $uw:literal, $name:ident, $gen:ident) => {
+        lx_datalines_pfx_harness!($k, $b, $uw, $name, false, $gen, );
+    };
+    ($k:literal, $b:literal, $uw:literal, $name:ident, $gen:ident, $arg:expr) => {
+        lx_datalines_pfx_harness!($k, $b, $uw, $name, false, $gen, $arg);
+    };
+    ($k:literal, $b:literal, $uw:literal, $name:ident, $four:literal, $gen:ident, $($arg:expr)?) => {
         lx_harness! {
             #[kani::unwind($uw)]
             fn $name() {
-                let t = Txt::<$k, $b>::$gen();
-                let mut lx = setup_after_cards(&t);
+                let t = Txt::<$k, $b>::$gen($($arg)?);
+                let mut lx = setup_after_cards(&t, $four);
                 let prev: u8 = kani::any();
                 kani::assume(prev < 3);
                 if prev == 1 {
@@ -1884,7 +1893,7 @@ macro_rules! lx_datalines_pfx_harness {
                     shadow::preload_token(shadow::mk_token(TokenChannel::HIDDEN, TokenType::WS, 2, 1, 0, Payload::None));
                 }
                 let pre = snapshot(&lx, &t);
-                let r = lx.lex_datalines(false);
+                let r = lx.lex_datalines($four);
                 // the start token begins at the keyword, inside the constant prefix: it is checked below, the
                 // common checker looks at the tokens after it
                 let pre_c = Pre { tok_n: pre.tok_n + r as usize, ..pre };
@@ -1913,24 +1922,26 @@ macro_rules! lx_datalines_pfx_harness {
                     let mut i = 0;
                     while i < $k {
                         if i > j && !found && i < t.n && t.ch[i] == ';' {
-                            end = i;
-                            found = true;
+                            if !$four || (i + 3 < t.n && t.ch[i + 1] == ';' && t.ch[i + 2] == ';' && t.ch[i + 3] == ';') {
+                                end = i;
+                                found = true;
+                            }
                         }
                         i += 1;
                     }
                     assert!(t.idx_of(c.byte_offset.get() as usize) == Some(end), "C06/C11: the data token ends at the first terminator");
-                    assert!(pi == end + found as usize, "C06: the terminator token consists of the terminator characters only");
+                    assert!(pi == end + if found { if $four { 4 } else { 1 } } else { 0 }, "C06: the terminator token consists of the terminator characters only");
                     assert!(lx.errors.len() == pre.err_n + (!found) as usize, "C09: an unterminated block is reported once");
                     if !found {
                         assert!(lx.errors[pre.err_n].error_kind() == ErrorKind::UnterminatedDatalines && lx.errors[pre.err_n].at_byte_offset() as usize == t.len, "C09: at the end of input");
                     }
                 }
                 assert!(lx.mode_stack.len() == pre.stack_len && lx.checkpoint.is_none());
-                kani::cover!($k < 2 || (is_dl && j > 0 && (t.ch[0] == '\u{a0}' || t.ch[0] == '\u{b}')), "non-ASCII-whitespace blank between keyword and ';'");
+                kani::cover!($k < 2 || t.ch[0] == ';' || (is_dl && j > 0 && (t.ch[0] == '\u{a0}' || t.ch[0] == '\u{b}')), "non-ASCII-whitespace blank between keyword and ';'");
                 kani::cover!(is_dl && prev == 0);
-                kani::cover!($k < 3 || (is_dl && pi == t.n && t.ch[t.n - 1] == ';' && t.n >= j + 3), "data then terminator");
-                kani::cover!($k < 2 || (is_dl && pi == t.n && t.ch[t.n - 1] != ';'), "unterminated block");
-                kani::cover!(!is_dl && prev == 1);
+                kani::cover!($k < 3 || $four || (is_dl && pi == t.n && t.ch[t.n - 1] == ';' && t.n >= j + 3), "data then terminator");
+                kani::cover!($k < 2 || t.ch[0] == '\u{b}' || (is_dl && pi == t.n && t.ch[t.n - 1] != ';'), "unterminated block");
+                kani::cover!(t.ch[0] == ';' || (!is_dl && prev == 1));
                 std::mem::forget(lx);
             }
         }
@@ -1939,3 +1950,12 @@ macro_rules! lx_datalines_pfx_harness {
 lx_datalines_pfx_harness!(3, 24, 6, lx_datalines_pfx_k3, any_after_cards);
 // exactly n ASCII followers: all byte positions constant
 lx_datalines_pfx_harness!(1, 12, 6, lx_datalines_ascii_n1, ascii_after_cards);
+// a vertical tab (whitespace, but not ASCII whitespace) between the keyword and one symbolic character
+lx_datalines_pfx_harness!(2, 12, 6, lx_datalines_ascii_vt_n2, ascii_after_cards_fixed, &['\u{b}']);
+// the statement's ';' constant, then data / terminator characters symbolic
+lx_datalines_pfx_harness!(2, 12, 6, lx_datalines_ascii_semi_n2, ascii_after_cards_fixed, &[';']);
+lx_datalines_pfx_harness!(3, 12, 6, lx_datalines_ascii_semi_n3, ascii_after_cards_fixed, &[';']);
+lx_datalines_pfx_harness!(4, 12, 6, lx_datalines_ascii_semi_n4, ascii_after_cards_fixed, &[';']);
+// datalines4: ';' constant, then data / ';;;;' terminator characters
+lx_datalines_pfx_harness!(3, 16, 8, lx_datalines4_ascii_semi_n3, true, ascii_after_cards4_fixed, &[';']);
+lx_datalines_pfx_harness!(6, 16, 8, lx_datalines4_ascii_semi_n6, true, ascii_after_cards4_fixed, &[';']);
